@@ -128,7 +128,8 @@ PROPS["C04"] = dict(
     pkg="./props/session", level="exploration", design_ref="DESIGN.md §3 C04, Appendix B",
     technique="rapid state-machine scenarios in closed loop with a simulated FIX counterparty; oracle = light sequencing model of ResendRequests kept from observable facts + end-state equivalence with the counterparty's sent history",
     level_note=SESSION_NOTE,
-    stages=[dict(name="rapid", kind="rapid", run="^TestC04_Rapid$", checks=(1500, 30000), shards=(12, 16), timeout=(600, 3000))],
+    stages=[dict(name="rapid", kind="rapid", run="^TestC04_Rapid$", checks=(1500, 30000), shards=(12, 16), timeout=(600, 3000)),
+            dict(name="slow-recovery", kind="plain", run="^TestC04_SlowRecovery$", shards=(1, 1), timeout=(120, 120))],
     require=["scenario-with:gap-on-logon", "scenario-with:live-stashed-during-recovery", "scenario-with:two-or-more-chunks", "scenario-with:reconnect",
              "scenario-with:inbound-while-pending-during-recovery", "scenario-with:chunk-relation:smaller-than-gap", "scenario-with:chunk-relation:none"],
     assumptions=["the counterparty answers one ResendRequest at a time and writes each replay contiguously (FIFO link); live messages may precede or follow a replay",
